@@ -41,27 +41,21 @@ private theorem litEq_val {lt : Ty} {lv : Val} {t : Ty} {v : Val} (h : litEq lt 
   simp only [litEq, Bool.and_eq_true, beq_iff_eq] at h; exact h.1.2
 
 private theorem eqPath_sound (lit : Lit) (t : Ty) (v : Val) (p : List Bytes)
-    (h : (match getPath t v p with
-      | some (ft, fv) => ofBool (litEq lit.ty lit.val ft fv)
-      | none => Tri.miss) = Tri.tt) : Infix (enc lit.val) (enc v) := by
-  split at h
-  · rename_i ft fv hg
-    have := litEq_val (ofBool_eq_tt h)
-    rw [this]; exact getPath_infix p t v ft fv hg
-  · simp at h
+    (h : withField t v p (fun ft fv => ofBool (litEq lit.ty lit.val ft fv)) = Tri.tt) :
+    Infix (enc lit.val) (enc v) := by
+  obtain ⟨ft, fv, hg, hk⟩ := withField_tt h
+  have := litEq_val (ofBool_eq_tt hk)
+  rw [this]; exact getPath_infix p t v ft fv hg
 
 private theorem inPath_sound (lit : Lit) (t : Ty) (v : Val) (p : List Bytes)
-    (h : (match getPath t v p with
-      | some (ft, fv) => ofBool (inEval lit.ty lit.val ft fv)
-      | none => Tri.miss) = Tri.tt) : Infix (enc lit.val) (enc v) := by
-  split at h
-  · rename_i ft fv hg
-    have hin := ofBool_eq_tt h
-    unfold inEval at hin
-    obtain ⟨t', v', hv, hi⟩ := walkAny_infix ft _ false fv hin
-    have := litEq_val hv
-    rw [this]; exact hi.trans (getPath_infix p t v ft fv hg)
-  · simp at h
+    (h : withField t v p (fun ft fv => ofBool (inEval lit.ty lit.val ft fv)) = Tri.tt) :
+    Infix (enc lit.val) (enc v) := by
+  obtain ⟨ft, fv, hg, hk⟩ := withField_tt h
+  have hin := ofBool_eq_tt hk
+  unfold inEval at hin
+  obtain ⟨t', v', hv, hi⟩ := walkAny_infix ft _ false fv hin
+  have := litEq_val hv
+  rw [this]; exact hi.trans (getPath_infix p t v ft fv hg)
 
 /-- `field == literal` / `literal in field` true on a value: the literal's tagged bytes occur in
     the value's serialisation. -/
@@ -142,74 +136,72 @@ theorem search_sound (lits : Lits) (atoms : Atoms) (ctx : Ctx) (frame : List (Na
   · simp at hc
   · rename_i lit hl
     simp only [evalFilter, hl] at he
-    split at he
-    · simp at he
-    · rename_i ft fv hg
+    obtain ⟨ft, fv, hg, he⟩ := withSearched_tt he
+    split at hc
+    · rename_i id hu
+      simp only [hu] at he
       split at hc
-      · rename_i id hu
-        simp only [hu] at he
-        split at hc
-        · simp at hc
-        · rename_i hnet
-          rw [if_neg hnet] at he
-          split at hc
-          · -- string literal: case finder or field-name finder
-            rename_i hstr
-            rw [if_pos hstr] at he
-            split at hc
-            · simp at hc
-            · rename_i left hl'
-              simp only [Option.some.injEq] at hc
-              subst hc
-              have hleft := forStringCase_some hl'
-              subst hleft
-              have hev := ofBool_eq_tt he
-              simp only [BufFilter.eval, Bool.or_eq_true]
-              rcases searchString_sound (primBytes lit.val) ft fv hev with h1 | h1
-              · exact Or.inr (fieldNameFind_of_mem ctx _ frame m t hm ht
-                  (getPath_match _ (pathBytes p) t m.2 ft fv hg h1))
-              · left
-                have := stringCase_eval_of_infix ctx frame (primBytes lit.val) m hm
-                  (findBy_infix foldEq _ (getPath_infix _ t m.2 ft fv hg) h1)
-                simpa [BufFilter.eval] using this
-          · -- another primitive literal: text in a string leaf, or a leaf equal to the literal
-            rename_i hstr
-            rw [if_neg hstr] at he
-            split at hc
-            · rename_i left right hl' hr'
-              simp only [Option.some.injEq] at hc
-              subst hc
-              have hleft := forStringCase_some hl'
-              subst hleft
-              obtain ⟨hright, hnum⟩ := forLiteral_some hr'
-              subst hright
-              have hn : isNumberId id = false := by
-                have := hnum id hu
-                simp only [Bool.or_eq_false_iff] at this; exact this.1
-              rw [if_neg (by simp [hn])] at he
-              have hev := ofBool_eq_tt he
-              unfold searchLitEval at hev
-              obtain ⟨t', v', hv, hi⟩ := walkAny_infix ft _ false fv hev
-              simp only [BufFilter.eval, Bool.or_eq_true]
-              simp only [Bool.or_eq_true] at hv
-              rcases hv with hv | hv
-              · left
-                split at hv
-                · rename_i id' bs
-                  simp only [Bool.and_eq_true] at hv
-                  have h1 : findBy foldEq text.toUTF8.toList (enc (.prim bs)) = true :=
-                    findBy_infix foldEq _ (enc_prim_infix bs) hv.2
-                  have := stringCase_eval_of_infix ctx frame text.toUTF8.toList m hm
-                    (findBy_infix foldEq _ (hi.trans (getPath_infix _ t m.2 ft fv hg)) h1)
-                  simpa [BufFilter.eval] using this
-                · simp at hv
-              · right
-                have hlv := litEq_val hv
-                have := string_eval_of_infix ctx frame (enc lit.val) m hm
-                  (by rw [hlv]; exact hi.trans (getPath_infix _ t m.2 ft fv hg))
-                simpa [BufFilter.eval] using this
-            · simp at hc
       · simp at hc
+      · rename_i hnet
+        rw [if_neg hnet] at he
+        split at hc
+        · -- string literal: case finder or field-name finder
+          rename_i hstr
+          rw [if_pos hstr] at he
+          split at hc
+          · simp at hc
+          · rename_i left hl'
+            simp only [Option.some.injEq] at hc
+            subst hc
+            have hleft := forStringCase_some hl'
+            subst hleft
+            have hev := ofBool_eq_tt he
+            simp only [BufFilter.eval, Bool.or_eq_true]
+            rcases searchString_sound (primBytes lit.val) ft fv hev with h1 | h1
+            · exact Or.inr (fieldNameFind_of_mem ctx _ frame m t hm ht
+                (getPath_match _ (pathBytes p) t m.2 ft fv hg h1))
+            · left
+              have := stringCase_eval_of_infix ctx frame (primBytes lit.val) m hm
+                (findBy_infix foldEq _ (getPath_infix _ t m.2 ft fv hg) h1)
+              simpa [BufFilter.eval] using this
+        · -- another primitive literal: text in a string leaf, or a leaf equal to the literal
+          rename_i hstr
+          rw [if_neg hstr] at he
+          split at hc
+          · rename_i left right hl' hr'
+            simp only [Option.some.injEq] at hc
+            subst hc
+            have hleft := forStringCase_some hl'
+            subst hleft
+            obtain ⟨hright, hnum⟩ := forLiteral_some hr'
+            subst hright
+            have hn : isNumberId id = false := by
+              have := hnum id hu
+              simp only [Bool.or_eq_false_iff] at this; exact this.1
+            rw [if_neg (by simp [hn])] at he
+            have hev := ofBool_eq_tt he
+            unfold searchLitEval at hev
+            obtain ⟨t', v', hv, hi⟩ := walkAny_infix ft _ false fv hev
+            simp only [BufFilter.eval, Bool.or_eq_true]
+            simp only [Bool.or_eq_true] at hv
+            rcases hv with hv | hv
+            · left
+              split at hv
+              · rename_i id' bs
+                simp only [Bool.and_eq_true] at hv
+                have h1 : findBy foldEq text.toUTF8.toList (enc (.prim bs)) = true :=
+                  findBy_infix foldEq _ (enc_prim_infix bs) hv.2
+                have := stringCase_eval_of_infix ctx frame text.toUTF8.toList m hm
+                  (findBy_infix foldEq _ (hi.trans (getPath_infix _ t m.2 ft fv hg)) h1)
+                simpa [BufFilter.eval] using this
+              · simp at hv
+            · right
+              have hlv := litEq_val hv
+              have := string_eval_of_infix ctx frame (enc lit.val) m hm
+                (by rw [hlv]; exact hi.trans (getPath_infix _ t m.2 ft fv hg))
+              simpa [BufFilter.eval] using this
+          · simp at hc
+    · simp at hc
 
 /-- The over-approximation, by induction over the filter expression. -/
 theorem compile_sound (lits : Lits) (atoms : Atoms) (ctx : Ctx) (frame : List (Nat × Val)) :
